@@ -138,6 +138,9 @@ fn check_input<S: Setup>(
                     S::verify(&prover, &proof)
                 });
                 let accepted = matches!(proved, Ok(Ok(())));
+                if std::env::var("P3R_DEBUG").is_ok() {
+                    eprintln!("DEBUG c02 violating run Ok; proved={proved:?}");
+                }
                 let failing: Vec<_> = ev.failing().iter().map(|r| r.kind.clone()).collect();
                 // NPO-bearing circuits need registered table provers; prep/prove errors there are
                 // "cannot be proven" which is what the statement allows.
